@@ -185,7 +185,7 @@ class Ctx:
         self.pc.append(cond if d else c_not(cond))
         return d
 
-    def assume(self, cond):
+    def assume(self, cond, check=True):
         """restrict the inputs (documented precondition); infeasible -> path dropped"""
         from .sint import SBool
 
@@ -199,7 +199,7 @@ class Ctx:
         self._sync_side()
         self.solver.add(e)
         self.pc.append(cond)
-        if self.pos >= len(self.trace):  # only check on the frontier path
+        if check and self.pos >= len(self.trace):  # only check on the frontier path
             if self._check() == z3.unsat:
                 raise Infeasible()
 
@@ -429,7 +429,7 @@ class ConcreteCtx:
         self.vars['choose:' + name] = {'kind': 'choice', 'value': v}
         return v
 
-    def assume(self, cond):
+    def assume(self, cond, check=True):
         if not bool(cond):
             raise Infeasible()
 
